@@ -138,6 +138,7 @@ def parseCmd {S} (cd : Codec S) (toks : List String) : Option (Cmd S) :=
   | ["eq", a, b] => some (.eq a b)
   | ["same", a, b] => some (.same a b)
   | ["samegrad", a, b] => some (.samegrad a b)
+  | ["sumgrad", c, ps] => do pure (.sumgrad c (← parseNames ps))
   | ["lin", c, al, a, be, b] => do pure (.lin c (← sc al) a (← sc be) b)
   | ["probe", v] => some (.probe v)
   | ["flags", v] => some (.flags v)
